@@ -19,6 +19,17 @@
 
 #include "rtrlib/spki/hashtable/ht-spkitable.c" /* the real translation unit */
 
+#ifdef VERIF_NATIVE
+/* native replay: out-of-line tommyds functions the translation unit references but no unit here reaches */
+void tommy_hashlin_init(tommy_hashlin *h)
+{
+	abort();
+}
+void tommy_hashlin_done(tommy_hashlin *h)
+{
+	abort();
+}
+#endif
 #ifndef VERIF_NATIVE
 /* memcmp of the C library, ASSUMED: the readable regions are checked ONCE for the whole length (one obligation
  * per call instead of twelve per byte, which is what makes CBMC's own byte loop with --pointer-check intractable
